@@ -108,6 +108,14 @@ def injection(src_sort, dst_sort):
     return r[0] if r else None
 
 
+EXTRA_AXIOMS = []        # callables: formulas -> [axioms] (registered by spec modules)
+_class_of_sort = {}      # sort name -> repo class qualname
+
+
+def declare_class_of(sort_name, qual):
+    _class_of_sort[sort_name] = qual
+
+
 def typeof_axioms(formulas):
     """type(x) is a class (never None) for every object x."""
     from .vc import uses
@@ -121,6 +129,14 @@ def typeof_axioms(formulas):
             x = z3.Const('tx', S)
             ax.append(z3.ForAll([x], z3.Implies(x != none_of(S), f(x) != none_of(Ty)),
                                 patterns=[f(x)]))
+            if sn in _class_of_sort:
+                from .exec import ClassV
+                ct = prelude.class_term(None, ClassV(_class_of_sort[sn]))
+                # an object of a class is an instance of that class or of a subclass
+                ax.append(z3.ForAll([x], z3.Implies(x != none_of(S), prelude.desc(ct, f(x))),
+                                    patterns=[f(x)]))
+    for fn in EXTRA_AXIOMS:
+        ax += fn(formulas)
     return ax
 
 
@@ -332,15 +348,15 @@ def open_site(X, call, node, result_T=None, rely=None, raises=None, reenter=True
     rely = rely if rely is not None else spec.rely_objects(X)
     if check_wf is None:
         check_wf = reenter
+    site = spec.site_config(X, node)
     if check_wf and not reenter:
         # the callback may OBSERVE the objects (so their invariants must hold
         # here) but is assumed not to modify them
         from .spec import oblige_split
         for obj in rely:
-            for cname, role, f in spec.wf_clauses(X, obj):
+            for cname, role, f in spec.wf_clauses(X, obj, site.get('wf_only')):
                 oblige_split(X, '%s:wf-at-callback[%s].%s' % (X.fn_name, name, cname), f,
                              'wf-at-callback', 'aux', assume_after=True)
-    site = spec.site_config(X, node)
     if reenter:
         for obj in rely:
             from .spec import oblige_split
